@@ -1,20 +1,26 @@
 #!/bin/bash
 # Must-fail corpus: every own mutant (selftest/mutants/<Cxx>-*.patch) and every seeded mutant
 # (seeded/<Cxx>-*/patch.diff) must make the check of its property report a VIOLATION.
+# Runs 4 at a time; each run keeps its replay records in a scratch directory of its own.
 cd "$(dirname "$0")/.."
-pass=0; fail=0
-for p in selftest/mutants/*.patch seeded/*/patch.diff; do
+one() {
+  p="$1"
   case "$p" in
     seeded/*) id=$(basename "$(dirname "$p")");;
     *) id=$(basename "$p" .patch);;
   esac
   prop=${id%%-*}
-  out=$(tools/runmutant.sh "$p" "$prop" 2>&1)
+  rd=$(mktemp -d /tmp/lbvc-selftest-replay-XXXXXX)
+  out=$(LBVC_REPLAY_DIR="$rd" tools/runmutant.sh "$p" "$prop" 2>&1)
+  rm -rf "$rd"
   if echo "$out" | grep -q "^VIOLATION property=$prop"; then
-    pass=$((pass+1)); echo "caught   $id"
+    echo "caught   $id"
   else
-    fail=$((fail+1)); echo "MISSED   $id :: $(echo "$out" | grep -E '^(property|patch|mutant|UNDEC)' | head -2 | tr '\n' ' ' | cut -c1-160)"
+    echo "MISSED   $id :: $(echo "$out" | grep -E '^(property|patch|mutant|UNDEC)' | head -2 | tr '\n' ' ' | cut -c1-160)"
   fi
-done
-echo "selftest: $pass caught, $fail missed"
-[ $fail -eq 0 ]
+}
+export -f one
+ls selftest/mutants/*.patch seeded/*/patch.diff | xargs -P 4 -I{} bash -c 'one {}' | tee /tmp/lbvc-selftest-last.log
+c=$(grep -c "^caught" /tmp/lbvc-selftest-last.log); m=$(grep -c "^MISSED" /tmp/lbvc-selftest-last.log)
+echo "selftest: $c caught, $m missed"
+[ "$m" -eq 0 ]
